@@ -62,8 +62,13 @@ def wAckFail : World :=
   { cur := some { segs := [⟨0, wrteFor 7 1 (syncRec .FAIL 2 [110, 111])⟩], faults := [⟨false, 0, .timeout⟩] },
     maxdata := 4096, available := true }
 
-/-- `pull` answered by DATA [1,2,3] and FAIL "no" in one WRTE — and then the device never sends its CLSE -/
+/-- `pull` answered by DATA [1,2,3] and FAIL "no" in one WRTE — and then the device never sends its CLSE
+    (regression world for the repaired `finally`-masking defect) -/
 def wPullFailNoClse : World := sxWorld (okFor 7 1 ++ okFor 7 1 ++ wrteFor 7 1 sxFailBytes)
+
+/-- that world after the guards of `pull`, and after `_open` (intermediate worlds for the examples) -/
+def wNoClse0 : World := (runGuards (guardsFor "pull") (some sxPath) wPullFailNoClse).2
+def wNoClse1 : World := (openStream (ascii "sync:") (some 10) (some 10) none { wNoClse0 with sink := some [] }).2
 
 /-- `list` answered by one DENT and then FAIL "no" (list-format records), cut inside the FAIL header -/
 def sxListFail : Bytes := dentRec .DENT 1 2 3 [97] ++ dentRec .FAIL 0 0 0 [110, 111]
@@ -74,6 +79,18 @@ def wListFail : World :=
 def errOf {α} : Except Err α → Option Err
   | .error e => some e
   | .ok _ => none
+
+theorem run_ok_of {α} {x : M α} {w : World} {a : α} (h : (x w).1.toOption = some a) : x w = (.ok a, (x w).2) := by
+  cases hx : x w with
+  | mk r w' =>
+    rw [hx] at h
+    cases r <;> simp_all [Except.toOption]
+
+theorem run_error_of {α} {x : M α} {w : World} {e : Err} (h : errOf (x w).1 = some e) : x w = (.error e, (x w).2) := by
+  cases hx : x w with
+  | mk r w' =>
+    rw [hx] at h
+    cases r <;> simp_all [errOf]
 
 theorem eq_error_of_errOf {α} {x : Except Err α} {e : Err} (h : errOf x = some e) : x = .error e := by
   cases x <;> simp_all [errOf]
